@@ -53,13 +53,15 @@ class FsMon:
                  read_ok: tuple[str, ...] = (),
                  write_ok: tuple[str, ...] = (),
                  fault_at: int | None = None,
-                 on_mutation: Callable[[int, str, str], None] | None = None
+                 on_mutation: Callable[[int, str, str], None] | None = None,
+                 on_after: Callable[[int, str, str], None] | None = None
                  ) -> None:
         self.allowed_root = self._norm(allowed_root) if allowed_root else None
         self.read_ok = tuple(self._norm(p) for p in read_ok)
         self.write_ok = tuple(self._norm(p) for p in write_ok)
         self.fault_at = fault_at
         self.on_mutation = on_mutation
+        self.on_after = on_after
         self.trace: list[tuple[str, str, str]] = []   # (op, path, r|w)
         self.violations: list[Violation] = []
         self.mutations = 0
@@ -143,12 +145,28 @@ class FsMon:
 
     # -- wrappers ------------------------------------------------------------
 
+    def _after(self, op: str, path: Any) -> None:
+        """called right after a mutating call returned"""
+        if self.on_after is None or not self.active or not self.enabled \
+                or isinstance(path, int):
+            return
+        self.enabled = False
+        try:
+            self.on_after(self.mutations, op, self._norm(path))
+        except (ValueError, TypeError):
+            pass
+        finally:
+            self.enabled = True
+
     def _wrap1(self, name: str, mode: str) -> Any:
         real = _REAL['os.' + name]
 
         def wrapper(path: Any, *a: Any, **kw: Any) -> Any:
             self._check(name, path, mode)
-            return real(path, *a, **kw)
+            res = real(path, *a, **kw)
+            if mode == 'w':
+                self._after(name, path)
+            return res
         wrapper.__name__ = name
         return wrapper
 
@@ -170,7 +188,9 @@ class FsMon:
                     self.mutations = saved[0]
                     self.faultable = saved_f
                     self.fault_at, self.on_mutation = saved[1], saved[2]
-            return real(src, dst, *a, **kw)
+            res = real(src, dst, *a, **kw)
+            self._after(name, dst)
+            return res
         wrapper.__name__ = name
         return wrapper
 
@@ -182,7 +202,10 @@ class FsMon:
                             'w' if writing else 'r')
             # with an opener (tempfile does this) the path argument is not
             # what gets opened; the opener's own os.open call is checked
-            return real(file, mode, *a, **kw)
+            res = real(file, mode, *a, **kw)
+            if writing and kw.get('opener') is None:
+                self._after('open-w', file)
+            return res
         return wrapper
 
     def _wrap_osopen(self) -> Any:
@@ -193,7 +216,10 @@ class FsMon:
                                     | os.O_TRUNC | os.O_APPEND))
             self._check('open-w' if writing else 'open-r', path,
                         'w' if writing else 'r')
-            return real(path, flags, *a, **kw)
+            res = real(path, flags, *a, **kw)
+            if writing:
+                self._after('open-w', path)
+            return res
         return wrapper
 
     def __enter__(self) -> 'FsMon':
